@@ -31,7 +31,7 @@ def main():
     if quick:
         rnd.shuffle(seeds)
         seeds = seeds[:160]
-    world = pegrun.peg_world(toks, 1 if quick else 2, 1, seeds, budgets=True)
+    world = pegrun.peg_world(toks, 1 if quick else 2, 1, seeds, budgets=True, checked=True)
     res = pegrun.run_peg(chk, "c11", world, shapes=False)
     chk.cov["evaluations"] = res["inputs"] + res["budgetruns"]
     chk.cov["distinct_nontrivial"] = res["budgetruns"]
